@@ -69,6 +69,7 @@ func cmdRun(args []string) int {
 	solver := fs.String("solver", "z3", "z3|z3-new|cvc5")
 	slog := fs.String("solver-log", "", "write worker 0's SMT-LIB dialogue here")
 	first := fs.Bool("first", false, "stop at first candidate")
+	cmdInits := fs.Bool("cmd-inits", false, "interpret package cmd's init#k functions")
 	verbose := fs.Bool("v", false, "print every candidate")
 	params := paramFlag{}
 	fs.Var(params, "p", "harness parameter k=v (repeatable)")
@@ -91,7 +92,7 @@ func cmdRun(args []string) int {
 	cfg := &interp.Config{
 		Prog: l.prog, HarnessPkgs: harnessPkgs(l), InitPkgs: l.initPkgs, Workers: *workers,
 		SolverArgv: solverArgv(*solver), TimeoutMs: *timeout, MaxPaths: *maxPaths, Budget: *budget,
-		Params: params, Trace: *trace, SampleEvery: 50, SolverLog: *slog, StopOnFirst: *first,
+		Params: params, Trace: *trace, SampleEvery: 50, SolverLog: *slog, StopOnFirst: *first, RunCmdInits: *cmdInits,
 	}
 	res, err := interp.Explore(cfg, fn)
 	if err != nil {
